@@ -217,25 +217,33 @@ def check_a(ck, repo):
 def check_b(ck, repo):
     n = 0
     ex = expander(repo)
-    # _switch_clusters: swap
-    sw = repo.func(MOD, "_switch_clusters")
-    L = _pn(sw, 0)
-    done = set()
-    for s, t in _label_stores(sw, L):
-        if id(s) in done:
-            continue
-        done.add(id(s))
-        n += 1
-        sets = [e for e in _effects(repo, sw, _block_of(s), s) if e[0] == "set" and e[1] == L]
-        ok = False
-        if len(sets) == 2:
-            (_, _, p1, v1, s1, r1, _), (_, _, p2, v2, s2, r2, _) = sets
-            if r1 is not None and r2 is not None and p1 != p2:
-                ok = v1 == _x_at(repo, sw, f"{L}[{r2}]", s) and v2 == _x_at(repo, sw, f"{L}[{r1}]", s)
-        if ok:
-            ck.holds("C07.b", sw, s, "exchange of the two entries' values (counts unchanged)")
-        else:
-            ck.violated("C07.b", sw, s, "label write in _switch_clusters is not an exchange of the two entries' values: cluster sizes change after the constraint was met")
+    # exchanges: _switch_clusters (labels) and _randomize_index (the order in which points are served)
+    for fname, what, bad in (
+        ("_switch_clusters", "label", "label write in _switch_clusters is not an exchange of the two entries' values: cluster sizes change after the constraint was met"),
+        ("_randomize_index", "index", "_randomize_index does not exchange two entries of the index: a point is lost from (or duplicated in) the order in which points are served, so it is assigned late or twice"),
+    ):
+        sw = repo.func(MOD, fname)
+        L = _pn(sw, 0)
+        done = set()
+        n_sw = 0
+        for s, t in _label_stores(sw, L):
+            if id(s) in done:
+                continue
+            done.add(id(s))
+            n += 1
+            n_sw += 1
+            sets = [e for e in _effects(repo, sw, _block_of(s), s) if e[0] == "set" and e[1] == L]
+            ok = False
+            if len(sets) == 2:
+                (_, _, p1, v1, s1, r1, _), (_, _, p2, v2, s2, r2, _) = sets
+                if r1 is not None and r2 is not None and p1 != p2:
+                    ok = v1 == _x_at(repo, sw, f"{L}[{r2}]", s) and v2 == _x_at(repo, sw, f"{L}[{r1}]", s)
+            if ok:
+                ck.holds("C07.b", sw, s, f"exchange of the two entries' values ({what}s keep their multiset)")
+            else:
+                ck.violated("C07.b", sw, s, bad)
+        if n_sw == 0:
+            ck.unknown("C07.b", sw, f"{L}[..], {L}[..] = ..", f"no write of the {what} array found in {fname}")
     # gain strategy
     g = repo.func(MOD, "_constraint_association_gain")
     L, C, LC, LIM, DC = _pn(g, P_LABELS), _pn(g, P_COUNTERS), _pn(g, P_LEFTCLOSE), _pn(g, P_LIMIT), _pn(g, P_DCLOSE)
@@ -511,6 +519,7 @@ WITNESSES = [
     {"name": "leftover-not-consumed", "file": _F, "rule": "C07.a", "old": "                    nover -= 1\n                    leftclose[c] = 0\n", "new": "                    leftclose[c] = 0\n"},
     {"name": "leftover-cluster-not-marked", "file": _F, "rule": "C07.a", "old": "                    nover -= 1\n                    leftclose[c] = 0\n", "new": "                    nover -= 1\n"},
     {"name": "assigned-not-skipped", "file": _F, "rule": "C07.a", "old": "            if labels[ind] >= 0:\n                continue\n", "new": ""},
+    {"name": "randomize-index-sliding-window", "file": _F, "rule": "C07.b", "old": "        ind1 = index[i - 1]\n        ind2 = index[i]\n        w1 = weights[ind1]", "new": "        ind1 = ind2 if i > 1 else index[0]\n        ind2 = index[i]\n        w1 = weights[ind1]"},
     {"name": "switch-not-a-swap", "file": _F, "rule": "C07.b", "old": "                    labels[i], labels[j] = c2, c1\n", "new": "                    labels[i], labels[j] = c2, c2\n"},
     {"name": "gain-move-one-sided-guard", "file": _F, "rule": "C07.b", "old": "        if (counters[dest] < ave + leftclose[dest]) and (\n            counters[cur] > ave + leftclose[cur]\n        ):\n", "new": "        if counters[dest] < ave + leftclose[dest]:\n"},
     {"name": "gain-move-no-decrement", "file": _F, "rule": "C07.b", "old": "            labels[ind] = dest\n            counters[cur] -= 1\n            counters[dest] += 1\n", "new": "            labels[ind] = dest\n            counters[dest] += 1\n"},
